@@ -707,6 +707,13 @@ theorem reqBnd_decodeR {I : InputOps Bytes} (hI : PlainIn I) : ∀ ty : Ty, prod
       (ReqBnd.bind ih (f := fun v => Prog.ascend fun _ => Prog.pure v) (m2 := 0) (B2 := 0)
         (fun v => ReqBnd.ascend hI (ReqBnd.pure' _ _ _ _)))
     exact this.mono (by omega) (Nat.le_refl _) (by omega) (by omega)
+  | .wrap t, hp, hl => by
+    have ih := reqBnd_decodeR hI t (by simpa [productive] using hp) (by simpa [layoutOk] using hl)
+    simp only [decodeR, minLen, reqRatio, baseMem, reqAllow]
+    refine ReqBnd.descend hI ?_
+    have := ReqBnd.bind ih (f := fun v => Prog.ascend fun _ => Prog.pure v) (m2 := 0) (B2 := 0)
+      (fun v => ReqBnd.ascend hI (ReqBnd.pure' _ _ _ _))
+    exact this.mono (by omega) (Nat.le_refl _) (by omega) (by omega)
   | .range t, hp, hl => by
     have ih := reqBnd_decodeR hI t (by simpa [productive] using hp) (by simpa [layoutOk] using hl)
     simp only [decodeR, minLen, reqRatio, baseMem, reqAllow]
